@@ -91,7 +91,7 @@ PROPS = {
         "flavors": ["sync", "async"],
         "streams": [("core", "sync", 200), ("history", "sync", 120), ("histdirected", "sync", 80), ("done", "sync", 80), ("loops", "sync", 80),
                     ("actions", "sync", 80), ("core", "async", 150), ("history", "async", 80), ("histdirected", "async", 60),
-                    ("loops", "async", 60), ("faults", "async", 60)],
+                    ("loops", "async", 60), ("faults", "async", 60), ("parallways", "sync", 80), ("parallways", "async", 80)],
         "oracles": [oracles.c01_legal],
         "thorough_scale": 10,
     },
@@ -146,7 +146,7 @@ PROPS = {
         "flavors": ["sync", "async"],
         "streams": [("loops", "sync", 250), ("loops", "async", 250), ("done", "async", 100), ("actions", "async", 60),
                     ("loopfaults", "async", 200), ("loopfaults", "sync", 80)],
-        "oracles": [oracles.c01_legal, oracles.c13_short_chain_not_cut],
+        "oracles": [oracles.c01_legal, oracles.c13_short_chain_not_cut, oracles.c13_queue_growth],
         "hang_is_violation": True,
         "thorough_scale": 8,
     },
